@@ -254,14 +254,21 @@ func SetContentType(w http.ResponseWriter, ct string) {
 		w.Header().Set("Content-Type", ct)
 		return
 	}
-	if strings.Contains(h, "+") {
+	// The suffix belongs to the media type, not to its parameters (e.g.
+	// "text/plain; charset=utf-8").
+	mt, params, hasParams := strings.Cut(h, ";")
+	if strings.Contains(mt, "+") {
 		return
 	}
 	suffix := "+json"
 	if ct == "application/xml" {
 		suffix = "+xml"
 	}
-	w.Header().Set("Content-Type", h+suffix)
+	h = strings.TrimSpace(mt) + suffix
+	if hasParams {
+		h += ";" + params
+	}
+	w.Header().Set("Content-Type", h)
 }
 
 func newTextEncoder(w io.Writer, ct string) Encoder {
